@@ -3,6 +3,6 @@ CONSTANTS
   MaxTokens = 7
   MaxDepth = 3
   Scalars = {2, 5, 9, 12, 13, 15, 16, 21}
-  Keys = {1, 4, 5, 6, 8, 12, 13}
+  Keys = {1, 4, 5, 6, 8, 12, 13, 15}
 INVARIANTS TypeOK Balanced NoDanglingKey Emit
 CHECK_DEADLOCK FALSE
